@@ -1368,7 +1368,11 @@ class ExecutionScreen(RedunScreen):
                 if status == "RUNNING":
                     query = query.filter(Job.end_time.is_(None))
                 elif status == "CACHED":
-                    query = query.filter(Job.cached.is_(True))
+                    # A job deduplicated onto a failed job is marked cached, but its status
+                    # is FAILED.
+                    query = query.filter(
+                        Job.cached.is_(True) & (Value.type != REDUN_ERROR_TYPE_NAME)
+                    )
                 elif status == "FAILED":
                     query = query.filter(Value.type == REDUN_ERROR_TYPE_NAME)
                 elif status == "DONE":
@@ -1428,7 +1432,7 @@ class ExecutionScreen(RedunScreen):
             children_result_types = (
                 self.app.session.query(Job, Value.type)
                 .outerjoin(CallNode, Job.call_hash == CallNode.call_hash)
-                .outerjoin(Value, CallNode.call_hash == Value.value_hash)
+                .outerjoin(Value, CallNode.value_hash == Value.value_hash)
                 .filter(Job.parent_id == root_id)
                 .options(
                     joinedload(Job.task),
